@@ -3,7 +3,7 @@
 # Applies a patch to /repo, runs the given quick checks, and always restores /repo.
 patch="$1"; shift
 git -C /repo apply "$patch" || { echo "patch does not apply"; exit 3; }
-trap 'git -C /repo checkout -- . ; [ -c /dev/full ] || (rm -f /dev/full; mknod -m 666 /dev/full c 1 7)' EXIT
+trap 'git -C /repo checkout -- . ; git -C /repo clean -fdq -e Cargo.lock -e target ; [ -c /dev/full ] || (rm -f /dev/full; mknod -m 666 /dev/full c 1 7)' EXIT
 for p in "$@"; do
   out=$(/verif/vcheck "$p" --tier quick 2>&1); code=$?
   echo "== $p exit=$code :: $(echo "$out" | grep -E 'VIOLATION|OK property|INFRA' | head -1 | cut -c1-160)"
